@@ -271,6 +271,19 @@ public:
     void
     popContext();
 
+    /**
+     * Begin the namespace scope of a new result tree, for example a result
+     * tree fragment which is built while another result tree is being
+     * built.  The declarations which are in scope at that point are not
+     * visible in the new tree.  They become visible again when popScope()
+     * is called.
+     */
+    void
+    pushScope();
+
+    void
+    popScope();
+
     const XalanDOMString*
     getNamespaceForPrefix(const XalanDOMString&     thePrefix) const;
 
@@ -368,6 +381,9 @@ private:
             const XalanDOMString&   theKey,
             MemberFunctionType      theFunction) const;
 
+    void
+    newEntry();
+
     /**
      * A stack to keep track of the result tree namespaces.
      */
@@ -378,6 +394,12 @@ private:
     NamespacesStackType::iterator   m_stackPosition;
 
     BoolVectorType                  m_createNewContextStack;
+
+    /**
+     * The offset of m_stackBegin and the size of m_createNewContextStack
+     * for each enclosing scope.
+     */
+    XalanVector<size_type>          m_scopeStack;
 };
 
 
